@@ -242,6 +242,38 @@ def real_simulators(ctx, n):
                     fails.append((f"relabel-outcomes:{name}", f"{name}: measuring modes {meas} (relabelled by {perm}) does not give the same outcome distribution", dict(desc, perm=perm, measure=meas)))
             except Exception as e:
                 fails.append((f"outcomes-raise:{name}:{type(e).__name__}", f"{name}: {type(e).__name__}: {str(e)[:120]}", dict(desc, measure=meas)))
+        # (2b) Gaussian dyne measurements of a mode tuple in ANY order: the same seed gives the same outcomes for the relabelled
+        #      program, and the post-measurement state of the remaining modes is the correspondingly relabelled one
+        if name == "Gaussian" and d >= 3:
+            k = int(rng.integers(2, d))
+            meas = tuple(int(x) for x in rng.permutation(d)[:k])
+            mk = [lambda: pq.HomodyneMeasurement(), lambda: pq.HeterodyneMeasurement(),
+                  lambda: pq.GeneraldyneMeasurement(detection_covariance=np.array([[1.3, 0.2], [0.2, 0.9]]))][it // len(sims) % 3]
+            def run_dyne(perm_=None):
+                ins = [pq.Vacuum(), pq.Displacement(r=0.7, phi=0.4).on_modes(0 if perm_ is None else perm_[0]),
+                       pq.Displacement(r=0.3, phi=-1.1).on_modes(d - 1 if perm_ is None else perm_[d - 1])]
+                for f, modes, _ in prog:
+                    ins.append(f().on_modes(*(modes if perm_ is None else tuple(perm_[m] for m in modes))))
+                ins.append(mk().on_modes(*(meas if perm_ is None else tuple(perm_[m] for m in meas))))
+                sim = sims[name](d=d, config=pq.Config(cutoff=cutoff, seed_sequence=11))
+                return sim.execute(pq.Program(instructions=ins), shots=3)
+            try:
+                r1, r2 = run_dyne(None), run_dyne(perm)
+                ctx.count(("dyne-relabel", it), nontrivial=list(meas) != sorted(meas))
+                R1 = sorted(set(range(d)) - set(meas)); R2 = sorted(perm[m] for m in R1)
+                pr = [R2.index(perm[m]) for m in R1]
+                worst = 0.0
+                for b1, b2 in zip(r1.branches, r2.branches):
+                    worst = max(worst, float(np.abs(np.asarray(b1.outcome, dtype=float) - np.asarray(b2.outcome, dtype=float)).max()))
+                    m1_, c1_ = np.asarray(b1.state.xpxp_mean_vector), np.asarray(b1.state.xpxp_covariance_matrix)
+                    m2_, c2_ = np.asarray(b2.state.xpxp_mean_vector), np.asarray(b2.state.xpxp_covariance_matrix)
+                    idx = [2 * pr[i] + q for i in range(len(R1)) for q in (0, 1)]
+                    worst = max(worst, float(np.abs(m2_[idx] - m1_).max()), float(np.abs(c2_[np.ix_(idx, idx)] - c1_).max()))
+                if worst > 1e-7:
+                    fails.append((f"relabel-dyne:{name}", f"Gaussian: a dyne measurement of modes {meas} and the same program with modes renamed by {perm} differ by {worst:.3g} in outcomes / post-measurement state (same seed)",
+                                  dict(desc, perm=perm, measure=meas)))
+            except Exception as e:
+                fails.append((f"dyne-raise:{name}:{type(e).__name__}", f"{name}: {type(e).__name__}: {str(e)[:120]}", dict(desc, measure=meas)))
         # (3) swapping adjacent instructions with disjoint supports
         for i in range(len(prog) - 1):
             (f1, m1, c1), (f2, m2, c2) = prog[i], prog[i + 1]
